@@ -1,6 +1,7 @@
 import IbModel.Util.Wire
 import IbModel.Model.Assertions
-/-! Driver handlers for C20: `ASSERT <eq|unord|kv|grp> <A> | <B>` ↦ `PASS` | `PANIC`. -/
+/-! Driver handlers for C20: `ASSERT <eq|unord|kv|grp|maps> <A> | <B>`, `ASSERT size <A> <n>`,
+    `ASSERT contains <A> <x>`, `ASSERT <all|any|none> <pred> <A>` ↦ `PASS` | `PANIC`. -/
 namespace IB.D20
 open IB.Wire IB.Assertions
 
@@ -28,7 +29,18 @@ def grps? (s : String) : Option (List (Int × List Int)) :=
 
 def verdict (b : Bool) : String := if b then "PASS" else "PANIC"
 
-def leInt (a b : Int) : Bool := decide (a ≤ b)
+/-- the closed predicate library of the harness (`c20.rs::Pred`) -/
+def pred? (s : String) : Option (Int → Bool) :=
+  match s.splitOn ":" with
+  | ["true"] => some (fun _ => true)
+  | ["false"] => some (fun _ => false)
+  | ["even"] => some (fun x => x % 2 == 0)
+  | ["odd"] => some (fun x => x % 2 != 0)
+  | ["neg"] => some (fun x => decide (x < 0))
+  | ["lt", n] => (parseInt? n).map (fun n x => decide (x < n))
+  | ["eq", n] => (parseInt? n).map (fun n x => x == n)
+  | ["ne", n] => (parseInt? n).map (fun n x => x != n)
+  | _ => none
 
 def handleAssert : List String → String
   | ["eq", a, "|", b] =>
@@ -46,6 +58,30 @@ def handleAssert : List String → String
   | ["grp", a, "|", b] =>
       match grps? a, grps? b with
       | some a, some b => verdict (assertGrouped leInt a b)
+      | _, _ => "BAD-OP"
+  | ["maps", a, "|", b] =>
+      match kvs? a, kvs? b with
+      | some a, some b => verdict (assertMaps (mkMap a) (mkMap b))
+      | _, _ => "BAD-OP"
+  | ["size", a, n] =>
+      match ints? a, parseNat? n with
+      | some a, some n => verdict (assertSize a n)
+      | _, _ => "BAD-OP"
+  | ["contains", a, x] =>
+      match ints? a, parseInt? x with
+      | some a, some x => verdict (assertContains a x)
+      | _, _ => "BAD-OP"
+  | ["all", p, a] =>
+      match pred? p, ints? a with
+      | some p, some a => verdict (assertAll p a)
+      | _, _ => "BAD-OP"
+  | ["any", p, a] =>
+      match pred? p, ints? a with
+      | some p, some a => verdict (assertAny p a)
+      | _, _ => "BAD-OP"
+  | ["none", p, a] =>
+      match pred? p, ints? a with
+      | some p, some a => verdict (assertNone p a)
       | _, _ => "BAD-OP"
   | _ => "BAD-OP"
 
